@@ -320,7 +320,9 @@ def plan_extremes_asan(case, ctx):
             with np.errstate(all="ignore"):
                 try:
                     a, da = plan.eval_feat_exp(tuple(np.array(x, copy=True) for x in rt), i=i)
-                except RuntimeError:
+                except Exception as e:
+                    if not ("exponent" in str(e).lower() and "large" in str(e).lower()):
+                        raise
                     ctx.check(hard_reject, ("eval_feat_exp", "raised_although_disabled"))
                     ctx.event("large_exponent_rejected")
                     ctx.nontrivial([case["plan"], case["formula"], case["nalpha"], "rejected"])
